@@ -809,18 +809,18 @@ func checkBucketSpec(r *run, t *simrt.Tape) {
 			want = append(want, 0)
 			continue
 		}
-		k := 1 + t.Choose(999)
+		k := int64(1 + t.Choose(999)) // (64 bits: a count of nanoseconds does not fit an int on 32-bit platforms)
 		d := time.Duration(k) * u.unit
 		if d <= cur {
 			d = cur + time.Duration(1+t.Choose(1000))*u.unit
-			k = int(d / u.unit)
+			k = int64(d / u.unit)
 			if time.Duration(k)*u.unit != d {
 				u = unitForms[0]
-				k = int(d)
+				k = int64(d)
 			}
 		}
 		cur = d
-		parts = append(parts, strconv.Itoa(k)+u.suffix)
+		parts = append(parts, strconv.FormatInt(k, 10)+u.suffix)
 		want = append(want, d)
 	}
 	pad := func() string { return strings.Repeat(" ", t.Biased(4, 2, 3)) }
